@@ -30,7 +30,9 @@ def gen_master(rng, dup=False):
     """returns (text, paths) — nested scopes built from a random set of dotted paths"""
     n = rng.randint(2, 7)
     paths = []
-    while len(paths) < n:
+    attempts = 0
+    while len(paths) < n and attempts < 200:       # the prefix-free family may be saturated (every component taken as a leaf)
+        attempts += 1
         p = [rng.choice(COMPS) for _ in range(rng.choice([1, 2, 2, 3, 3]))]
         # a path may not be a strict prefix of another (scope vs definition clash) nor a duplicate
         if any(q[:len(p)] == p or p[:len(q)] == q for q in paths):
